@@ -95,6 +95,90 @@ def check_codec_width(ctx: Ctx):
         ctx.undecided("R09.1.floor", f, f.node, "floor:R09.1", f"{n_ev} arithmetic/cast events of the pair encoding inspected, confirmed floor is 8")
 
 
+def check_codec_width_relational(ctx: Ctx):
+    """R09.1b: the same obligation with the container chosen by code (e.g. a 'smallest fitting'
+    dtype computed from the data): the largest pair code max(pred)*(max(ref)+k)+max(ref) must be
+    provably within the container on every path, under the path's own constraints."""
+    from ..linarith import constraint_slack, decide_leq
+    from .c04 import infeasible, _show
+    from .labelrun import LV, RelabelInterp, VoxelArr, chains
+
+    prog = ctx.prog
+    f = prog.func("_functionals:_calc_overlapping_labels")
+    role = {}
+    for p in f.params:
+        lp = p.name.lower()
+        role[p.name] = "pred" if lp.startswith(("pred", "prediction")) else ("labels" if "label" in lp else "ref")
+    n = 0
+    for IN in ("u8", "u16", "u32", "u64"):
+        refs, preds = chains(3, 5)
+        m, pmax = refs[-1], preds[-1]
+        L = LBLMAX[IN]
+        domain = [Poly.const(L) - m, Poly.const(L) - pmax]
+        holder = []
+
+        def make(prefix):
+            args = {}
+            for pn, ro in role.items():
+                if ro == "pred":
+                    args[pn] = VoxelArr("PRED", pmax, IN, pmax)
+                elif ro == "ref":
+                    args[pn] = VoxelArr("REF", m, IN, m)
+                else:
+                    args[pn] = tuple(LV(r, IN, "nps") for r in refs)
+            it = RelabelInterp(prog, f, args, prefix=prefix)
+            it.root.domain_slacks = domain
+            it.root.no_inline = set()
+            holder.append(it)
+            return it
+
+        work = [[]]
+        seen = set()
+        runs = []
+        while work and len(runs) < 64:
+            prefix = work.pop()
+            if tuple(prefix) in seen:
+                continue
+            seen.add(tuple(prefix))
+            it = make(prefix)
+            try:
+                it.run()
+            except Undecided:
+                pass
+            taken = [d for (_, _, d) in it.root.taken]
+            runs.append(it)
+            for i in range(len(prefix), len(taken)):
+                work.append(taken[:i] + [not taken[i]])
+        for it in runs:
+            slacks = list(domain)
+            for node, v, d in it.root.taken:
+                pv = getattr(v, "pv", None)
+                if pv and len(pv) == 3:
+                    slacks += constraint_slack(pv[0], pv[1], pv[2], d)
+            if infeasible(slacks):
+                continue
+            dtxt = "; ".join(f"{norm(nd) if isinstance(nd, ast.AST) else '?'}={d}" for nd, v, d in it.root.taken)
+            seen_ev = set()
+            for evn in it.root.events:
+                key = (evn.what, repr(evn.value), evn.cont)
+                if key in seen_ev or evn.cont not in CAP or evn.cont in ("py", "f64"):
+                    continue
+                seen_ev.add(key)
+                if not evn.value.nonneg_coeffs():
+                    continue
+                n += 1
+                ok, w = decide_leq(evn.value, CAP[evn.cont], slacks)
+                c2 = f"{f.qual}:dtype={IN}:{evn.what}:{evn.cont}"
+                if ok is True:
+                    ctx.ok("R09.1", f, evn.node, c2, f"{evn.what}: largest value {evn.value!r} fits {evn.cont}", None)
+                elif ok is False:
+                    ctx.violated("R09.1", f, evn.node, c2, f"{evn.what}: value {evn.value!r} can exceed the container {evn.cont} (max {CAP[evn.cont]}) and wraps around: candidate pairs are lost or corrupted", {"valuation": _show(w, refs, preds), "path": dtxt})
+                else:
+                    ctx.undecided("R09.1", f, evn.node, c2, f"could not decide whether {evn.value!r} <= {CAP[evn.cont]}", {"path": dtxt})
+    if n < 8:
+        ctx.undecided("R09.1.floor", f, None, "floor:R09.1b", f"{n} container obligations of the pair encoding decided, confirmed floor is 8")
+
+
 class CropPointwise(Pointwise):
     def should_inline(self, f: Func) -> bool:
         return f.name not in ("_get_bbox_nd",)
@@ -196,6 +280,7 @@ def check_other_arithmetic(ctx: Ctx):
 
 def check(ctx: Ctx):
     check_codec_width(ctx)
+    check_codec_width_relational(ctx)
     check_crop_width(ctx)
     check_other_arithmetic(ctx)
     # delegated rule sets (same engines, same verdicts as in C04 / C05)
